@@ -96,7 +96,8 @@ def run(v, tier, rng):
             continue
         nontriv += 1
         if w != "".join(ps):
-            v.finding("C17-single-emission-mode", {"source": src[cid], "out": w, "expected_segmentwise": "".join(ps)})
+            v.violation("a program that switches mode between instruction groups is not the concatenation of its groups assembled in their own mode",
+                        {"source": src[cid], "out": w, "expected_segmentwise": "".join(ps), "segments": [src[p] for p in parts]})
     bad = lib.coq_eval("c17m", lib.header(), ["(%s, %s)" % (A.g_program(c["prog"]), lib.obs_of(res[c["id"]])) for c in cases if c["prog"] is not None], per_file=200)
     if bad and not v.violations:
         v.tie_broken("correspondence model vs gosk (BITS placement / switching programs)", {"count": len(bad)})
